@@ -23,7 +23,7 @@ McStrRank == Tab.rank
 \* use when they are substituted for constants in the configuration file)
 INSTANCE KStore WITH Num10 <- McNum10, Num16 <- McNum16, NumC <- McNumC,
                     DecStr <- McDecStr, HexStr <- McHexStr, StrRank <- McStrRank,
-                    NumF <- Tab.numf, NormF <- Tab.normf, FCanon <- Tab.fcanon
+                    NumF <- Tab.numf, NormF <- Tab.normf, FCanon <- Tab.fcanon, HexPfx <- Tab.hexpfx
 
 Progs == Data.progs
 NT    == Len(Progs)
